@@ -90,7 +90,7 @@ def jobs(tier):
     for bt in (0, 10):
         out.append({"acks": 1, "batch": True, "sym_thresholds": (6, 16), "batch_t": bt, "codec": CODEC_NONE, "api": 0,
                     "K": 4 if q else 5, "sends": 3, "faults": 0 if q else 1, "max_attempts": 2, "sym_attempts": False, "two_topics": False,
-                    "cancel": False, "stop": False, "variants": 2, "errcodes": 1, "sync": "any", "sync_budget": 1, "resend": True})
+                    "cancel": True, "stop": False, "variants": 2, "errcodes": 1, "sync": "any", "sync_budget": 1, "resend": True})
     return out
 
 
